@@ -387,9 +387,6 @@ func (w *world) runScenario(sc *Scenario) {
 			if pre.Present && ghost != nil {
 				k := pre.Number
 				agreeUpto := k - D
-				if len(pre.Hash) == 0 {
-					agreeUpto = k
-				}
 				if agreeUpto < 0 {
 					agreeUpto = 0
 				}
